@@ -519,49 +519,71 @@ func checkSampleWrite(c *Ctx, rule string) {
 	c.Check(okTm, rule, "block time = (popped timestamp - track origin) / ticks per ms", w.Pos(), "tm := (ts - value(t.origin)) / (clockrate/1000)", "the block's time is not the sample's RTP timestamp relative to the track origin")
 	okPair := false
 	if sampleObj != nil && tsObj != nil {
-		isPop := func(n ast.Node) bool {
-			as, ok := n.(*ast.AssignStmt)
-			if !ok || len(as.Lhs) != 2 || len(as.Rhs) != 1 {
+		// pairCurrent(s, t, at): at node `at` the variables s and t hold the sample and the
+		// timestamp of one and the same pop of this track's builder - assigned together by
+		// the pop itself, or copied together from a pair for which that holds
+		var pairCurrent func(sObj, tObj types.Object, at ast.Node, depth int) bool
+		pairCurrent = func(sObj, tObj types.Object, at ast.Node, depth int) bool {
+			if depth > 3 {
 				return false
 			}
-			l0, ok0 := as.Lhs[0].(*ast.Ident)
-			l1, ok1 := as.Lhs[1].(*ast.Ident)
-			if !ok0 || !ok1 || info.Uses[l0] != sampleObj || info.Uses[l1] != tsObj {
-				return false
-			}
-			call, ok := unparen(as.Rhs[0]).(*ast.CallExpr)
-			if !ok {
-				return false
-			}
-			f := calleeOf(&CallSite{Call: call, In: wb})
-			if !(extMethodIs(f, "github.com/jech/samplebuilder", "SampleBuilder", "PopWithTimestamp") || extMethodIs(f, "github.com/jech/samplebuilder", "SampleBuilder", "ForcePopWithTimestamp")) {
-				return false
-			}
-			if s2, ok := unparen(recvExpr(call)).(*ast.SelectorExpr); ok {
-				if s := info.Selections[s2]; s != nil && s.Obj() == types.Object(fBuilder) {
-					return true
+			lhsIs := func(as *ast.AssignStmt) bool {
+				if len(as.Lhs) != 2 {
+					return false
 				}
+				l0, ok0 := as.Lhs[0].(*ast.Ident)
+				l1, ok1 := as.Lhs[1].(*ast.Ident)
+				return ok0 && ok1 && info.ObjectOf(l0) == sObj && info.ObjectOf(l1) == tObj
 			}
-			return false
-		}
-		kill := func(n ast.Node) bool {
-			if isPop(n) {
-				return false
-			}
-			killed := false
-			ast.Inspect(n, func(m ast.Node) bool {
-				if as, ok := m.(*ast.AssignStmt); ok {
-					for _, l := range as.Lhs {
-						if id, ok := l.(*ast.Ident); ok && (info.Uses[id] == sampleObj || info.Uses[id] == tsObj) {
-							killed = true
-						}
+			isPop := func(n ast.Node) bool {
+				as, ok := n.(*ast.AssignStmt)
+				if !ok || !lhsIs(as) {
+					return false
+				}
+				if len(as.Rhs) == 2 {
+					// s, t := a, b
+					a, okA := unparen(as.Rhs[0]).(*ast.Ident)
+					b, okB := unparen(as.Rhs[1]).(*ast.Ident)
+					return okA && okB && info.Uses[a] != nil && info.Uses[b] != nil && pairCurrent(info.Uses[a], info.Uses[b], as, depth+1)
+				}
+				if len(as.Rhs) != 1 {
+					return false
+				}
+				call, ok := unparen(as.Rhs[0]).(*ast.CallExpr)
+				if !ok {
+					return false
+				}
+				f := calleeOf(&CallSite{Call: call, In: wb})
+				if !(extMethodIs(f, "github.com/jech/samplebuilder", "SampleBuilder", "PopWithTimestamp") || extMethodIs(f, "github.com/jech/samplebuilder", "SampleBuilder", "ForcePopWithTimestamp")) {
+					return false
+				}
+				if s2, ok := unparen(recvExpr(call)).(*ast.SelectorExpr); ok {
+					if s := info.Selections[s2]; s != nil && s.Obj() == types.Object(fBuilder) {
+						return true
 					}
 				}
-				return true
-			})
-			return killed
+				return false
+			}
+			kill := func(n ast.Node) bool {
+				if isPop(n) {
+					return false
+				}
+				killed := false
+				ast.Inspect(n, func(m ast.Node) bool {
+					if as, ok := m.(*ast.AssignStmt); ok {
+						for _, l := range as.Lhs {
+							if id, ok := l.(*ast.Ident); ok && (info.ObjectOf(id) == sObj || info.ObjectOf(id) == tObj) {
+								killed = true
+							}
+						}
+					}
+					return true
+				})
+				return killed
+			}
+			return ff.MustFlag(isPop, kill)(at)
 		}
-		okPair = ff.MustFlag(isPop, kill)(w)
+		okPair = pairCurrent(sampleObj, tsObj, w, 0)
 	}
 	c.Check(okPair, rule, "data and timestamp come from one pop of this track's builder", w.Pos(), "sample, ts = t.builder.[Force]PopWithTimestamp() is current at the write of sample.Data", "the bytes written and the timestamp used do not belong to the same popped sample of this track")
 	// who stores diskTrack.writer
@@ -591,9 +613,36 @@ func checkSampleWrite(c *Ctx, rule string) {
 		return true
 	})
 	okKf := len(inits) == 2
+	// the keyframe flag: the first argument of the block write, and the locals it is copied from
 	var kfObj types.Object
+	kfChain := map[types.Object]bool{}
+	if id, isId := unparen(w.Args[0]).(*ast.Ident); isId {
+		kfObj = info.Uses[id]
+	}
+	if kfObj != nil {
+		kfChain[kfObj] = true
+		for changed := true; changed; {
+			changed = false
+			ast.Inspect(wb.Body(), func(n ast.Node) bool {
+				as, isAs := n.(*ast.AssignStmt)
+				if !isAs || len(as.Lhs) != len(as.Rhs) {
+					return true
+				}
+				for i, l := range as.Lhs {
+					lid, isL := l.(*ast.Ident)
+					rid, isR := unparen(as.Rhs[i]).(*ast.Ident)
+					if isL && isR && kfChain[info.ObjectOf(lid)] {
+						if v, isV := info.Uses[rid].(*types.Var); isV && !kfChain[v] {
+							kfChain[v] = true
+							changed = true
+						}
+					}
+				}
+				return true
+			})
+		}
+	}
 	if okKf {
-		kfObj = wb.localVar("keyframe")
 		n, nvideo := 0, 0
 		for _, ic := range inits {
 			// the audio-only container is started with dimensions 0, 0
@@ -602,7 +651,13 @@ func checkSampleWrite(c *Ctx, rule string) {
 			}
 			nvideo++
 			s, _ := ff.At(ic)
-			if s != nil && kfObj != nil && s.HasFact(mkFact(true, "true", TVar(kfObj), nil)) {
+			held := false
+			for v := range kfChain {
+				if s != nil && s.HasFact(mkFact(true, "true", TVar(v), nil)) {
+					held = true
+				}
+			}
+			if held {
 				n++
 			}
 		}
@@ -623,7 +678,7 @@ func checkSampleWrite(c *Ctx, rule string) {
 			if !ok || len(as.Lhs) != 1 {
 				return true
 			}
-			if id, ok := as.Lhs[0].(*ast.Ident); !ok || info.Uses[id] != kfObj {
+			if id, ok := as.Lhs[0].(*ast.Ident); !ok || !kfChain[info.ObjectOf(id)] {
 				return true
 			}
 			// ts == t.savedKf.Timestamp, possibly preceded by t.savedKf != nil
